@@ -694,6 +694,32 @@ type Replay struct {
 	Notes      []string `json:"notes,omitempty"`
 }
 
+// perFunctionSummary: for every function under contract, how many obligations of each kind were
+// generated and how many of them were discharged in this run (obligations that were deferred or not
+// claimed have no result and are not counted as discharged).
+func perFunctionSummary(jobs []*fnJob) []map[string]interface{} {
+	var out []map[string]interface{}
+	for _, j := range jobs {
+		kinds := map[string]int{}
+		disch := 0
+		n := 0
+		var secs float64
+		for _, ob := range j.vc.Obs {
+			if ob.Kind == "cover" {
+				continue
+			}
+			n++
+			kinds[ob.Kind]++
+			if ob.Result == "unsat" {
+				disch++
+				secs += ob.Secs
+			}
+		}
+		out = append(out, map[string]interface{}{"function": j.vc.Key, "obligations_generated": n, "discharged_in_this_run": disch, "by_kind": kinds, "solver_seconds": round3(secs)})
+	}
+	return out
+}
+
 func writeEvidence(v *Verifier, prop, tier string, seed int, jobs []*fnJob, total, discharged, violations int, knownHit []string, samples []map[string]interface{}, perBackend map[string]map[string]int, solverSecs map[string]float64, wall float64, notClaimed []string, ncovers int, deferred []string) {
 	var fns []string
 	assump := map[string]bool{}
@@ -750,6 +776,7 @@ func writeEvidence(v *Verifier, prop, tier string, seed int, jobs []*fnJob, tota
 			"known_findings":           knownHit,
 			"unsupported":              unsup,
 			"samples":                  samples,
+			"per_function":             perFunctionSummary(jobs),
 			"partial_correctness_only": true,
 			"not_claimed_obligations":  notClaimed,
 			"deferred_to_thorough":     deferred,
